@@ -2,8 +2,10 @@
 # runs every thorough check once (long); prints one line per check
 cd "$(dirname "$0")"
 ./check --setup 2>&1 | tail -2
+WORST=0
 for id in C08 C09 C10 C11 C18 C19 C16 C17 C14 C15 C13 C12 C06 C04 C20 C07 C02 C03 C05 C01; do
   S=$(date +%s); OUT=$(VERIF_BATCHES=${VERIF_BATCHES:-4} ./check $id --tier thorough 2>/tmp/thorough_$id.err); RC=$?
   echo "$id thorough exit=$RC $(( $(date +%s) - S ))s"
-  [ $RC -ne 0 ] && { echo "$OUT" | grep VIOLATION | head -3; tail -3 /tmp/thorough_$id.err; }
+  if [ $RC -ne 0 ]; then echo "$OUT" | grep VIOLATION | head -3; tail -3 /tmp/thorough_$id.err; [ $RC -gt $WORST ] && WORST=$RC; fi
 done
+exit $WORST
